@@ -8,6 +8,7 @@ import (
 	"os"
 	"sort"
 	"strings"
+	"sync"
 
 	"golang.org/x/tools/go/packages"
 	"golang.org/x/tools/go/ssa"
@@ -24,6 +25,9 @@ type Program struct {
 	byPath map[string]*packages.Package
 	// funcs indexes every SSA function (incl. closures and methods) by key.
 	funcs map[string]*ssa.Function
+
+	implMu    sync.Mutex
+	implCache map[string][]string
 }
 
 func repoDir() string {
@@ -207,4 +211,60 @@ func stripBrackets(s string) string {
 		}
 	}
 	return b.String()
+}
+
+// implementers returns the keys of the methods named m of the repository's concrete types that implement interface
+// type it (by value or by pointer).
+func (P *Program) implementers(it types.Type, m string) []string {
+	iface, ok := it.Underlying().(*types.Interface)
+	if !ok || iface.NumMethods() == 0 {
+		return nil
+	}
+	ck := types.TypeString(it, nil) + "#" + m
+	P.implMu.Lock()
+	defer P.implMu.Unlock()
+	if P.implCache == nil {
+		P.implCache = map[string][]string{}
+	}
+	if v, ok := P.implCache[ck]; ok {
+		return v
+	}
+	var out []string
+	for _, sp := range P.SSA.AllPackages() {
+		if sp.Pkg == nil || !strings.HasPrefix(sp.Pkg.Path(), repoModule) || strings.Contains(sp.Pkg.Path(), "internal/mock") {
+			continue
+		}
+		for _, mem := range sp.Members {
+			tn, ok := mem.(*ssa.Type)
+			if !ok {
+				continue
+			}
+			named, ok := tn.Type().(*types.Named)
+			if !ok || named.TypeParams().Len() > 0 {
+				continue
+			}
+			if _, isIface := named.Underlying().(*types.Interface); isIface {
+				continue
+			}
+			for _, recv := range []types.Type{named, types.NewPointer(named)} {
+				if !types.Implements(recv, iface) {
+					continue
+				}
+				sel := P.SSA.MethodSets.MethodSet(recv).Lookup(sp.Pkg, m)
+				if sel == nil {
+					sel = types.NewMethodSet(recv).Lookup(nil, m)
+				}
+				if sel == nil {
+					continue
+				}
+				if fn := P.SSA.MethodValue(sel); fn != nil && fn.Synthetic == "" {
+					out = append(out, FuncKey(fn))
+				}
+				break
+			}
+		}
+	}
+	sort.Strings(out)
+	P.implCache[ck] = out
+	return out
 }
